@@ -174,3 +174,10 @@ pub struct ConnectionStats {
     /// Statistics related to the current transmission path
     pub path: PathStats,
 }
+
+#[cfg(feature = "__verif-hooks")]
+#[allow(missing_docs, unreachable_pub, dead_code, unused_imports, unused_qualifications)]
+pub mod verif {
+    use super::*;
+    include!(concat!(env!("QUINN_VERIF_HOOKS"), "/proto/connection/stats.rs"));
+}
